@@ -21,7 +21,7 @@ const ATOMS: &[&str] = &[
 ];
 const WORDS: &[&str] = &[
     "", "~", "null", "Null", "NULL", "nUll", "true", "True", "false", "FALSE", "yes", "No", "on", "OFF", "y", "n", "<<", "---", "...", "--- a", "... b", "---x", "- a", "-", "?", "? a", "a: b", "a:", "a :",
-    "a #b", "a# b", "#a", " a", "a ", "a\t", "\ta", "a\n", "\na", "a\nb", "a\n\nb", ".nan", ".NaN", ".inf", "-.INF", "+.inf", "nan", "inf", "+inf", "-inf", "NaN", "0x1F", "0o17", "0b101", "1_000",
+    "a #b", "a# b", "#a", " a", "a ", "a\t", "\ta", "a\n", "\na", "a\nb", "a\n\nb", ".nan", ".NaN", ".inf", "-.INF", "+.inf", "nan", "inf", "+inf", "-inf", "NaN", "0x1F", "0o17", "0b101", "0X1F", "0O17", "0B101", "-0X1f", "+0O7", "0XaBc", "0x_1", "1E3", "1.E3", "+.5", "1._5", "0e0", "1:30", "190:20:30", "1_000",
     "1.5", "1.", ".5", "1e3", "1E+3", "1.5e-3", "-1", "+1", "007", "0", "-0", "1_", "_1", "0x", "1e", "e1", "1.2.3", "12:30", "12:30:45", "2001-01-01", "\u{feff}a", "a\u{feff}", "!tag", "&a", "*a",
     "[a]", "{a}", "a,b", "a]", "|", ">", "%YAML", "@a", "`a", "'a'", "\"a\"", "it's", "say \"hi\"", "back\\slash", "tab\there", "bell\u{7}", "nel\u{85}x", "ls\u{2028}x", "日本語", "😀 emoji", "key: value # c",
     "a: ", ": a", "a:b", "http://x", "- ", "-- a", "....", "--", "..", "=", "<", "<<<", "<< ", "\u{a0}a", "a\u{a0}", "\u{3000}a",
